@@ -66,7 +66,7 @@ def gen_history(rng):
             op["kw"] = {"immed": rng.getrandbits(1), "group": rng.randrange(32)}
             op["tl"] = min(tl, 0xFFFF)
         ops.append(op)
-    return {"bs": bs, "nblocks": nblocks, "ops": ops}
+    return {"bs": bs, "nblocks": nblocks, "ops": ops, "devtype": rng.choice([0, 0, 4, 7]), "inquiry_length": rng.choice([36, 96, 96])}
 
 
 def payload(op_id, idx, bs):
@@ -89,7 +89,8 @@ def run_history(ctx, hist, transport, world):
     from vmon.sim.target import Target
 
     bs, nblocks = hist["bs"], hist["nblocks"]
-    tgt = Target(0, 0, bs, nblocks)
+    tgt = Target(hist.get("devtype", 0), 0, bs, nblocks)
+    tgt.inquiry_length = hist.get("inquiry_length", 96)
     if transport == "sgio":
         node = devnode.new_node()
         dev = init_device(node, read_write=True)
@@ -108,6 +109,7 @@ def run_history(ctx, hist, transport, world):
             ctx.fail("C12:attach_not_sbc", "block target attached with %s" % name_of_set(dev), wit0)
         overlap = False
         written = set()
+        held = []  # data-in buffers of earlier reads whose command object was dropped: (buffer, content when read)
         for op in hist["ops"]:
             k, w, lba, tl = op["kind"], op["width"], op["lba"], op["tl"]
             wit = dict(wit0, op=op, recent=[o["kind"] + str(o["width"]) for o in hist["ops"][max(0, op["id"] - 5): op["id"]]])
@@ -151,6 +153,10 @@ def run_history(ctx, hist, transport, world):
                                  % (w, lba, tl, bad, got[(bad or 0) * bs:(bad or 0) * bs + 24], want[(bad or 0) * bs:(bad or 0) * bs + 24]), wit)
                     results.append(("read", lba, tl, hash(got)))
                     ctx.count("reads_compared")
+                    held.append((cmd.datain, got))
+                    del cmd
+                    if len(held) > 6:
+                        held.pop(0)
                 elif k == "sync":
                     getattr(s, "synchronizecache%d" % w)(lba, op["tl"], **op["kw"])
                     results.append(("sync",))
@@ -162,7 +168,8 @@ def run_history(ctx, hist, transport, world):
                     results.append(("cap", r.get("returned_lba"), r.get("block_length")))
                 elif k == "inq":
                     r = s.inquiry().result
-                    if r.get("peripheral_device_type") != 0 or bytes(r.get("t10_vendor_identification", b"")) != tgt.vendor or bytes(r.get("product_identification", b"")) != tgt.product:
+                    if (r.get("peripheral_device_type") != tgt.devtype or bytes(r.get("t10_vendor_identification", b"")) != tgt.vendor
+                            or bytes(r.get("product_identification", b"")) != tgt.product or bytes(r.get("product_revision_level", b"")) != tgt.rev):
                         ctx.fail("C12:inquiry_result", "INQUIRY reports %r" % {k2: r.get(k2) for k2 in ("peripheral_device_type", "t10_vendor_identification")}, wit)
                     results.append(("inq",))
             except Exception as e:  # noqa: BLE001
@@ -171,6 +178,12 @@ def run_history(ctx, hist, transport, world):
             if tgt.anomalies:
                 ctx.fail("C12:target_anomaly.%s%d" % (k, w), "target: %s" % tgt.anomalies[0], wit)
                 del tgt.anomalies[:]
+            for buf, content in held:
+                if bytes(buf) != content:
+                    ctx.fail("C12:earlier_read_data_changed", "data returned by an earlier READ changed when a later command (%s%d) ran" % (k, w), wit)
+                    del held[:]
+                    break
+            ctx.count("held_buffers_rechecked", len(held))
             if tgt.n - n_before != 1:
                 ctx.fail("C12:commands_per_call_%d" % (tgt.n - n_before), "%s(%d) reached the target %d times" % (k, w, tgt.n - n_before), wit)
             ctx.count("commands")
